@@ -94,3 +94,56 @@ func init() {
 	addMutant(Mutant{Prop: "C14", Name: "varname-before-load", File: "cl/import.go",
 		Old: "\tpkgTypes := p.ensureLoaded(v.Pkg.Pkg)\n\tpkg := p.pkg\n\tname, vtype, _ := p.varName(pkgTypes, v)", New: "\tpkgTypes := v.Pkg.Pkg\n\tpkg := p.pkg\n\tname, vtype, _ := p.varName(pkgTypes, v)\n\tp.ensureLoaded(pkgTypes)", Expect: "R14.6 cl.context.varOf"})
 }
+
+// checkLocalTypePosKept (R14.7): types declared inside functions are told apart by a scope index that ends in
+// the declaration position; the synthetic TypeName that replaces a local type of a generic function must keep it.
+func checkLocalTypePosKept(c *Ctx, cp *packages.Package) {
+	c.Rule("R14.7", "the synthetic type name of a function-local type keeps the position of the declaration it replaces (the last disambiguator of same-named local types)", 1)
+	fd := findFunc(cp, "context.patchLocalGenericNamed")
+	if fd == nil {
+		c.Undecided("R14.7", "cl.context.patchLocalGenericNamed", 0, "function not found")
+		return
+	}
+	c.nfuncs++
+	info := cp.TypesInfo
+	n := 0
+	for _, call := range callsIn(fd.Body) {
+		if f := calleeOf(info, call); f != nil && qualName(f) == "go/types.NewTypeName" && len(call.Args) == 4 {
+			n++
+			pos := strings.ReplaceAll(exprStr(call.Args[0]), " ", "")
+			c.Check(strings.HasSuffix(pos, ".Obj().Pos()") || strings.HasSuffix(pos, ".Pos()") && pos != "token.NoPos", "R14.7", "cl.context.patchLocalGenericNamed keeps the declaration position", call.Pos(), "NewTypeName(t.Obj().Pos(), ...)",
+				"the replacement type name is created at "+pos+": two generic functions that each declare a local type of the same name and ordinal get one descriptor and one instance name for two different types")
+		}
+	}
+	if n == 0 {
+		c.Undecided("R14.7", "cl.context.patchLocalGenericNamed", fd.Pos(), "no types.NewTypeName call")
+	}
+}
+
+// checkDescriptorBuildOrder (R14.8): in abiType the common fields (which compile the pointer type's descriptor
+// and with it the method wrappers, as mergeable definitions) are built before the method table refers to
+// those wrappers; built the other way round the table declares them as plain externals first and the later
+// definition becomes a strong symbol in every package that instantiates the type.
+func checkDescriptorBuildOrder(c *Ctx, sp *packages.Package) {
+	c.Rule("R14.8", "a descriptor's method table is built after its common fields, so that the wrappers it names were first created as mergeable definitions", 1)
+	fd := findFunc(sp, "Builder.abiType")
+	if fd == nil {
+		c.Undecided("R14.8", "ssa.Builder.abiType", 0, "function not found")
+		return
+	}
+	c.nfuncs++
+	info := sp.TypesInfo
+	g := buildCFG(sp, fd)
+	isCommon := func(n ast.Node) bool { return containsCallTo(info, n, "ssa.Builder.abiCommonFields") }
+	isTable := func(n ast.Node) bool {
+		return containsCallTo(info, n, "ssa.Builder.abiUncommonMethods") || containsCallTo(info, n, "ssa.Builder.abiUncommonType")
+	}
+	hit, reached := g.reach(g.entry(), isCommon, func(n ast.Node) bool { return isTable(n) && !isCommon(n) }, false, nil)
+	c.Check(!reached, "R14.8", "ssa.Builder.abiType builds the method table after the common fields", fd.Pos(), "abiCommonFields precedes abiUncommonType/abiUncommonMethods on every path",
+		"the method table is built ("+c.posStr(posOf(hit))+") before the common fields: the wrappers of value-receiver methods are first declared external, and their later definition is a strong, package-independent symbol (duplicate definitions across packages)")
+}
+
+func init() {
+	addMutant(Mutant{Prop: "C14", Name: "local-type-nopos", File: "cl/compile.go",
+		Old: "obj := types.NewTypeName(t.Obj().Pos(), t.Obj().Pkg(), p.localNamedName(t, true), nil)", New: "obj := types.NewTypeName(token.NoPos, t.Obj().Pkg(), p.localNamedName(t, true), nil)", Expect: "R14.7"})
+}
